@@ -287,6 +287,7 @@ func c10History(t *rapid.T, undefinedIDs, allowError bool) C10Case {
 	enc := refbin.NewEnc(ch)
 	applyEncoderExclusions(enc)
 	enc.UndefinedSlots = undefinedIDs
+	enc.LSTOpenContent = gen.Chance(t, 30)
 	pr := reftext.NewPrinter(ch)
 	applyPrinterExclusions(pr)
 	pr.SIDOneIn = 2
